@@ -305,7 +305,13 @@ class CallMixin:
             for n, ks in c.sorts.items():
                 if n == 'result' or n not in env:
                     continue
-                if not self.kind_accepts(parse_kind(ks), env[n].kind):
+                want = parse_kind(ks)
+                if want.name == 'pytuple':
+                    if not (env[n].kind.name == 'pytuple' and len(env[n].py) == len(want.args)):
+                        ok = False
+                        break
+                    continue
+                if not self.kind_accepts(want, env[n].kind):
                     ok = False
                     break
             if ok:
@@ -478,6 +484,8 @@ class CallMixin:
             if n in env and n != 'result' and not (constructing and n == selfname):
                 want = parse_kind(ks)
                 v = env[n]
+                if want.name == 'pytuple':
+                    continue
                 if v.kind.name in ('emptylist', 'emptydict', 'emptyset'):
                     v = self.materialise(v, want.args[0] if want.name == 'opt' else want)
                 if v.kind.name == 'opt' and want.name != 'opt' and not self.term_mode:
